@@ -396,8 +396,13 @@ def model(world, gene_obj, reads, lo, hi, multi_sites):
     mapped = gene_obj.chr_to_ref
     table = defaultdict(lambda: defaultdict(Counter))
     shown = defaultdict(lambda: defaultdict(set))  # fragment -> pos -> alleles shown by M bases
+    # fragment -> catalogued multi-nucleotide sites at which one of its reads ends *inside* the substitution
+    # having shown it as far as it goes: whether such a read "covers" the site is not settled by the statement,
+    # so an entry for it is neither required nor forbidden
+    cut = defaultdict(set)
     stats = {"mnp_complete": 0, "mnp_partial": 0}
     phaseable = {p for p, _ in gene_obj.mutations}
+    ins_anchors = {p for p, op in gene_obj.mutations if op.startswith("ins")}
     for r in reads:
         if not eligible(r, lo, hi):
             continue
@@ -439,6 +444,10 @@ def model(world, gene_obj, reads, lo, hi, multi_sites):
                 q += k
             elif o == "S":
                 q += k
+        # the read's last aligned base is the base a catalogued insertion is anchored to: the read cannot show
+        # the insertion, whether it "covers" that variant site is not settled by the statement either
+        if pos - 1 in ins_anchors and rshown.get(pos - 1) == {"_"}:
+            cut[r["name"]].add(pos - 1)
         # multi-nucleotide substitutions: complete ones count once, at the first position
         for mpos, mop in multi_sites.items():
             l, rr = mop.split(">")
@@ -456,10 +465,13 @@ def model(world, gene_obj, reads, lo, hi, multi_sites):
                 table[mpos][mop][(mq, None)] += 1
             elif have:
                 stats["mnp_partial"] += 1
+                if mpos < pos < mpos + len(l) and all(c in have for c in comp if c[0] < pos):
+                    cut[r["name"]].add(mpos)
         for p, (op, bq) in subs.items():
             table[p][op][(mq, bin_q(bq))] += 1
         for p, al in rshown.items():
             shown[r["name"]][p] |= al
+    model.cut = cut
     return table, shown, stats
 
 
@@ -624,6 +636,8 @@ def run_segment(seg):
                 if not m_alleles:
                     continue
                 stats["phase_sites"] += 1
+                if p not in ph and p in model.cut.get(frag, ()):
+                    continue
                 if p not in ph:
                     viol.append(_v("phase record misses a catalogued site the fragment covers", delivery=d,
                                    fragment=frag, pos=p, shown=sorted(alleles)))
